@@ -82,6 +82,11 @@ func (c *dspCase) encode() Fields {
 	return f
 }
 
+// The verb pool.  Index 0 is the 001 line.  Without tracking the pool starts with verbs the
+// client itself reacts to through built-in INTERNAL handlers (PING -> PONG, CTCP VERSION -> a
+// NOTICE reply, NICK of somebody else), so that user handlers sit next to built-in ones, then
+// verbs nobody but the user handlers cares about.  With tracking on every verb is a
+// state-changing one (each has a built-in state handler) so that the tracker sample is defined.
 func dspVerbName(track, v int) string {
 	if v == 0 {
 		return "001"
@@ -89,7 +94,7 @@ func dspVerbName(track, v int) string {
 	if track == 1 {
 		return []string{"TOPIC", "332", "MODE"}[(v-1)%3]
 	}
-	return []string{"PRIVMSG", "NOTICE", "V3", "372", "V5", "V6"}[(v-1)%6]
+	return []string{"PING", "PRIVMSG", "CTCP", "NICK", "NOTICE", "372", "V7"}[(v-1)%7]
 }
 
 // the wire text of line k
@@ -119,6 +124,12 @@ func (c *dspCase) lineText(k int) string {
 		return fmt.Sprintf("%s332 me #c :%d%s", src, k, pad)
 	case "MODE":
 		return fmt.Sprintf("%sMODE #c +k %d", src, k)
+	case "PING":
+		return fmt.Sprintf("%sPING :%d%s", src, k, pad)
+	case "CTCP":
+		return fmt.Sprintf("%sPRIVMSG me :\x01VERSION\x01", src)
+	case "NICK":
+		return fmt.Sprintf("%sNICK x%d", src, k)
 	default:
 		return fmt.Sprintf("%s%s #c :%d%s", src, dspVerbName(c.track, code), k, pad)
 	}
@@ -547,7 +558,7 @@ func dspGenCase(r *Rand, o dspGenOpt, small bool) *dspCase {
 	if o.parks {
 		c.parkPct = []int{0, 10, 50}[r.Intn(3)]
 	}
-	nv := r.Range(2, 5)
+	nv := r.Range(3, 7) // always PING and PRIVMSG, often CTCP / NICK / plain verbs
 	if o.track {
 		nv = r.Range(2, 4)
 	}
@@ -555,8 +566,11 @@ func dspGenCase(r *Rand, o dspGenOpt, small bool) *dspCase {
 		c.vfg = append(c.vfg, r.Intn(4))
 		c.vbg = append(c.vbg, r.Intn(3))
 	}
-	if c.vfg[1] == 0 {
+	if c.vfg[1] == 0 { // PING (or TOPIC) always has foreground handlers
 		c.vfg[1] = 2
+	}
+	if !o.track && c.vfg[2] == 0 {
+		c.vfg[2] = 1
 	}
 	for k := 0; k < nl; k++ {
 		code := 1 + r.Intn(nv-1)
@@ -572,7 +586,7 @@ func dspGenCase(r *Rand, o dspGenOpt, small bool) *dspCase {
 		case o.shorts && r.Chance(6):
 			code = 901 + r.Intn(2)
 		}
-		if code < 900 && dspVerbName(c.track, code) != "MODE" && r.Chance(3) && !small {
+		if vn := dspVerbName(c.track, code); code < 900 && vn != "MODE" && vn != "CTCP" && vn != "NICK" && r.Chance(3) && !small {
 			code += 1000
 		}
 		c.codes = append(c.codes, code)
